@@ -143,6 +143,9 @@ def replay_excel_fs(elements, nr, nrho, w):
 
 def cases(tier, seed=0):
   cs = []
+  from checks import fpgrid
+  cs.append(Case("fp grid setfl_fs", fpgrid.grid_case, target="setfl_fs", nr=41))
+  cs.append(Case("fp grid DL_POLY_EAM_fs", fpgrid.grid_case, target="DL_POLY_EAM_fs", nr=41))
   N = EC.NAMES
   idx = 0
   ns = (1, 2) if tier == "quick" else (1, 2, 3)
